@@ -66,8 +66,9 @@ CHECKS = {
             'Every menu operation at every node (and batched deep rebinds with 1-3 paths) with notifications on / off / '
             'skipped on trees mixing objects overriding _on_change (with / without super), dicts/lists with callbacks and '
             'plain containers: exactly one event per affected subscriber, none for others, children before parents, '
-            'payload checked against pre/post snapshots, one _on_bound per event; after every ordinary step the derived '
-            'facts of every node equal those of a fresh deep copy.',
+            'payload checked against pre/post snapshots, one _on_bound per event; a node the call removed no longer notifies the '
+            'tree when it is changed afterwards; handler lookup over a class hierarchy in all 24 first-use orders; after every '
+            'ordinary step (also a failed batch) the derived facts of every node equal those of a fresh deep copy.',
             BASE_NOTE),
     'C10': ('E2-enum', 'model_checking',
             'exhaustive enumeration of parser inputs / key sequences / nested values, plus explicit-state BFS to closure of KeyPathSet against a Python set',
@@ -98,7 +99,8 @@ CHECKS = {
             'Every template built from the DNASpec grammar inside a dict, a list and an object, every valid DNA: no '
             'placeholder left, equals the reference decode, encode inverts decode, repeatable, materialize agrees, template '
             'snapshot unchanged even after writes to the decoded value, pg.iter yields space_size distinct values; typed '
-            'fields, where-filters, and all two-step mutation chains of an evolvable placeholder.',
+            'fields, where-filters, user-defined (custom) placeholders in 6 template shapes, and all two-step mutation chains of '
+            'an evolvable placeholder (the parent is decoded again after each derivation).',
             BASE_NOTE),
     'C14': ('E3-choice', 'model_checking',
             'stateless DFS over choice sequences of the random source for every operator x specification x parents; enumeration of operator expressions',
@@ -133,21 +135,23 @@ CHECKS = {
             BASE_NOTE),
     'C16': ('E4-sched', 'model_checking',
             'stateless schedule exploration of real worker threads under a controlled scheduler with iterative preemption bounding',
-            'Six harnesses of 2-3 real threads iterating the same named in-memory sampling loop (different groups, same group '
-            'with done / measure / skip, an evolution with feedback, end_loop, three workers): every schedule with at most 1 '
+            'Nine harnesses of 2-3 real threads iterating the same named in-memory sampling loop (different groups, same group '
+            'with done / measure / skip, evolution with feedback in different and in the same group, an early-stopping policy, '
+            'end_loop, a worker that leaves its trial pending, three workers): every schedule with at most 1 '
             'preemption (2 for the two-worker harnesses in thorough) at statement granularity inside the sampling, backend, '
             'generator and evolution modules is executed to quiescence and checked: trial count and ids, delivery to one '
-            'group within one shared study, exactly-once feedback, counters, completion, summary, best trial, no crash, no '
+            'group within one shared study, no new trial for a group while an earlier one is pending, exactly-once feedback, '
+            'counters, completion, summary, best trial, no crash, no '
             'deadlock.',
             BASE_NOTE),
     'C17': ('E4-sched', 'model_checking',
             'bounded-exhaustive enumeration of well-nested enter/exit programs against stack models + schedule exploration of two threads (event granularity and statement granularity, preemption bounded)',
-            'All tree shapes with up to 3 scopes over each of 16 scoped managers (every argument value, every block left '
+            'All tree shapes with up to 3 scopes over each of 17 scoped managers (incl. timing scopes observed through a probe and view options with dict-valued entries) (every argument value, every block left '
             'normally, by Exception or by BaseException) and over every pair of managers: the observation of every manager '
             'equals its documented nesting rule at every point and the full observation vector is restored after every exit; '
             'process-wide managers: restoration only. Two threads running such programs under the controlled scheduler: all '
             'schedules with <= 2 preemptions at event granularity and <= 1 preemption at statement granularity inside the '
-            'thread-local / flags / contextual / detour / permission / dynamic-evaluation modules; each thread must observe '
+            'thread-local / flags / contextual / detour / permission / timing / dynamic-evaluation modules; each thread must observe '
             'what it observes alone.',
             BASE_NOTE),
     'C18': ('E2-enum', 'model_checking',
@@ -213,14 +217,16 @@ def main():
                serves_properties=['C01', 'C02', 'C03', 'C05', 'C07', 'C08', 'C09', 'C10', 'C17'],
                kind_free_text='explicit-state BFS over the real transition function; state = replayable history; '
                               'canonical hashing; lock-step reference model / invariant on every state'),
-          dict(name='E2-enum', path='mc/enum2.py',
+          dict(name='E2-enum', path='mc/specs.py',
                serves_properties=['C04', 'C05', 'C06', 'C10', 'C11', 'C12', 'C13', 'C18', 'C19', 'C20'],
-               kind_free_text='bounded-exhaustive enumeration of small grammars; laws on every element/pair/triple'),
+               kind_free_text='bounded-exhaustive enumeration of small grammars (mc/specs.py value specs + independent acceptor, '
+                              'mc/dnaspecs.py DNASpecs + independent reference generator, generators inside mc/props/*); '
+                              'laws on every element/pair/triple'),
           dict(name='E3-choice', path='mc/choice.py', serves_properties=['C11', 'C12', 'C13', 'C14'],
                kind_free_text='stateless DFS over choice sequences: every random.* call is a branching point'),
           dict(name='E4-sched', path='mc/sched.py', serves_properties=['C16', 'C17'],
                kind_free_text='controlled thread scheduler (settrace + baton), iterative preemption bounding'),
-          dict(name='E5-crash', path='mc/crash.py', serves_properties=['C15'],
+          dict(name='E5-crash', path='mc/props/c15.py', serves_properties=['C15'],
                kind_free_text='crash-point x missing-feedback enumeration with recover and lock-step continuation'),
       ],
       checks=checks,
